@@ -26,6 +26,12 @@ def run_real(case):
     if kind == "vec":
         end = v["end"] if v["end"] != 0 else None
         return [int(x) for x in vectorisePositions(list(v["pos"]), v["res"], v["start"], end)]
+    if kind == "seq":   # the composed entry point the correlation uses: window + blur + strand
+        from src.correlation.optical_map import OpticalMap
+        from src.correlation.sequence_generator import SequenceGenerator
+        end = v["end"] if v["end"] != 0 else None
+        om = OpticalMap(1, max(v["pos"]) + 1, list(v["pos"]))
+        return [int(x) for x in om.getSequence(SequenceGenerator(v["res"], v["r"]), v["rev"], v["start"], end)]
     if kind == "blur":
         return [int(x) for x in blur(list(v["v"]), v["r"])]
     if kind == "bin":
@@ -58,6 +64,9 @@ def random_case(rng: random.Random):
         end = rng.choice([0, 0, pos[-1], pos[-1] - 1, pos[len(pos) // 2], start + 4 * res, pos[-1] + 3 * res])
         if end != 0 and end < start:
             end = 0
+        if rng.random() < 0.5:
+            return {"kind": "seq", "vin": {"pos": pos, "res": res, "start": start, "end": end,
+                                           "r": rng.choice([0, 0, 1, 2, 3]), "rev": rng.random() < 0.4}}
         return {"kind": "vec", "vin": {"pos": pos, "res": res, "start": start, "end": end}}
     if u < 0.65:
         n = rng.randint(0, 40)
@@ -83,7 +92,8 @@ def run(ctx: Ctx):
                 "ends before the last label and end=0; all bit vectors up to length 5/7 with radii 0..3; bin mapping "
                 "for resolutions 1..12; peak lists with tied scores and counts 0..4), printed by TLC, plus random "
                 "larger cases (resolutions up to 1400, coincident labels, labels on bin edges); through the real "
-                "functions; judged by TLC (Trace_Vectorise). non-trivial = distinct case whose result has both a 0 and "
+                "functions, every window also through the composed OpticalMap.getSequence / SequenceGenerator entry "
+                "(kind seq: blur and strand included); judged by TLC (Trace_Vectorise). non-trivial = distinct case whose result has both a 0 and "
                 "a 1 bit / a tie among scores / a label not at the bin start")
     ctx.assumptions = ["integer coordinates; labels ascending (the reader sorts them); end=0 means 'not given' exactly "
                        "as `end or positions[-1]` treats it"]
@@ -102,7 +112,10 @@ def run(ctx: Ctx):
                                   ctx.workdir, workers=4)
     if quick:
         space = space[::2]
-    cases = list(space) + [random_case(rng) for _ in range(4000 if quick else 100000)]
+    # every exported window also goes through the composed entry point OpticalMap.getSequence (blur 0/1, both strands)
+    seqs = [{"kind": "seq", "vin": dict(c["vin"], r=j % 2, rev=(j // 2) % 2 == 1)}
+            for j, c in enumerate(x for x in space if x["kind"] == "vec")]
+    cases = list(space) + seqs + [random_case(rng) for _ in range(4000 if quick else 100000)]
     records = []
     for c in cases:
         try:
@@ -111,7 +124,7 @@ def run(ctx: Ctx):
             obs = [-1] if c["kind"] != "bin" else -10 ** 9
         records.append({"kind": c["kind"], "vin": c["vin"], "obs": obs})
         v = c["vin"]
-        if (c["kind"] == "vec" and isinstance(obs, list) and 0 in obs and 1 in obs) or \
+        if (c["kind"] in ("vec", "seq") and isinstance(obs, list) and 0 in obs and 1 in obs) or \
            (c["kind"] == "blur" and 1 in v["v"] and 0 in v["v"] and v["r"] > 0) or \
            (c["kind"] == "bin" and (v["x"] - v["start"]) % v["res"] != 0) or \
            (c["kind"] == "sel" and len(set(v["scores"])) < len(v["scores"]) and 0 < v["count"] < len(v["scores"])):
@@ -126,7 +139,7 @@ def run(ctx: Ctx):
             ctx.violation(rec, failed, "", what=f"{rec['kind']} {str(rec['vin'])[:160]} -> {str(rec['obs'])[:80]}")
         elif drift:
             ctx.add_drift(1, rec)
-    for kind in ("vec", "blur", "sel"):
+    for kind in ("vec", "seq", "blur", "sel"):
         ctx.sample(next(x for x in reversed(records) if x["kind"] == kind), limit=4)
     th.join()
     if "err" in mc_res:
